@@ -67,6 +67,7 @@ type Transport struct {
 	// inbound
 	pieces  [][]byte // readable octets; a Read serves at most the rest of pieces[0]
 	endErr  error    // returned once everything is drained; nil => Read blocks
+	endOnce bool     // endErr is reported by one Read call only (a timeout: the next Read waits again)
 	parked  bool
 	reads   int
 	closed  bool // the library called Close
@@ -80,6 +81,8 @@ type Transport struct {
 	HoldAll         bool // every Write except those of the reading goroutine (Watch) is held until released
 	readerGo        int64
 	failWrite       bool           // Writes fail without recording anything
+	failWriteFor    map[int64]bool // goroutines whose Writes fail without recording anything
+	nFailedWrites   int
 	deadlineFails   map[int64]bool // goroutines for which SetWriteDeadline fails
 	nWriteDeadlines int
 	// C14 free-running mode: hold every writer until another Write has been recorded or grace passes
@@ -122,7 +125,11 @@ func (t *Transport) Read(p []byte) (int, error) {
 		}
 		if t.endErr != nil {
 			t.parked = false
-			return 0, t.endErr
+			err := t.endErr
+			if t.endOnce {
+				t.endErr, t.endOnce = nil, false
+			}
+			return 0, err
 		}
 		if t.UseDeadlines && !t.readDeadline.IsZero() {
 			d := time.Until(t.readDeadline)
@@ -158,7 +165,8 @@ func (t *Transport) Write(p []byte) (int, error) {
 		t.mu.Unlock()
 		return 0, errScriptedClosed
 	}
-	if t.failWrite {
+	if t.failWrite || t.failWriteFor[gid] {
+		t.nFailedWrites++
 		t.mu.Unlock()
 		return 0, errScriptedWrite
 	}
@@ -237,6 +245,22 @@ func (t *Transport) FailWriteDeadline(goid int64, on bool) {
 	t.mu.Unlock()
 }
 
+// FailWriteFor: Write calls made by that goroutine fail without any octet reaching the peer.
+func (t *Transport) FailWriteFor(goid int64, on bool) {
+	t.mu.Lock()
+	if t.failWriteFor == nil {
+		t.failWriteFor = map[int64]bool{}
+	}
+	t.failWriteFor[goid] = on
+	t.mu.Unlock()
+}
+
+func (t *Transport) NFailedWrites() int {
+	t.mu.Lock()
+	defer t.mu.Unlock()
+	return t.nFailedWrites
+}
+
 // ---- script side
 
 // ArmDeadlines: from now on a parked Read fails with a timeout once the read deadline set by the library has passed.
@@ -307,6 +331,15 @@ func (t *Transport) Inject(b []byte, cuts []int) {
 func (t *Transport) End(err error) {
 	t.mu.Lock()
 	t.endErr = err
+	t.cond.Broadcast()
+	t.mu.Unlock()
+}
+
+// EndOnce: the next Read that finds nothing to read fails with err; the one after it waits again
+// (a read timeout: the connection itself is still there).
+func (t *Transport) EndOnce(err error) {
+	t.mu.Lock()
+	t.endErr, t.endOnce = err, true
 	t.cond.Broadcast()
 	t.mu.Unlock()
 }
